@@ -12,6 +12,9 @@ PROPS = {
     "C13-upgrade-token-not-stripped": ["C13"], "C14-lifespan-failure-in-mixed-group": ["C14"], "C15-recycle-after-terminated": ["C15", "C06"],
     "C16-trio-eof-chunk-not-fed": ["C16"], "C17-call-soon-fire-and-forget": ["C17"], "C18-settings-pending-until-ack": ["C18"],
     "C19-jitter-default-zero": ["C19"], "C20-trusted-hop-early-exit": ["C20"],
+    "C07-singletask-stop-skips-lock": ["C07", "C16"], "C14-nested-group-failure-not-seen": ["C14"], "C15-h2-goaway-kills-inflight": ["C15", "C18", "C04"],
+    "C16-asyncio-unbounded-app-queue": ["C16", "C08"], "C17-groupby-drops-nonadjacent-headers": ["C17"], "C02-conn-window-update-stream0-ignored": ["C02", "C09", "C08"],
+    "C08-block-after-flush-stale": ["C08", "C09"], "C10-reject-before-buffering": ["C10"],
 }
 claimed = {c["property_id"] for c in json.load(open(os.path.join(HERE, "MANIFEST.json")))["checks"]}
 sel = sys.argv[1:]
